@@ -933,6 +933,8 @@ def CheckBlock(block, fCheckPoW = True, fCheckMerkleRoot = True, cur_time=None):
             root = block.vWitnessMerkleTree[-1]
             # vtx[0]: coinbase
             # vtxinwit[0]: first input
+            if not (len(block.vtx[0].wit.vtxinwit) and len(block.vtx[0].wit.vtxinwit[0].scriptWitness.stack)):
+                raise CheckBlockError("CheckBlock() : invalid coinbase witnessScript")
             nonce_script = block.vtx[0].wit.vtxinwit[0].scriptWitness
             nonce = nonce_script.stack[0]
             if len(nonce_script.stack) != 1 or len(nonce) != 32:
